@@ -86,11 +86,22 @@ def cases_for(tier):
     return out
 
 
+# caller states the wrapper must be transparent in (each is a prelude of harness commands)
+STATES = {
+    'plain': [],
+    'errno34': ['errno 34'],
+    'stdin_closed': ['stdin closed'],
+    'stdin_pty': ['stdin pty'],
+    'umask777_sigterm_blocked': ['umask 777', 'sigmask 15', 'sigmask 13'],
+    'daemon_uid': ['setresgid 1 1 1', 'setresuid 1 1 1'],
+}
+
+
 def run_config(args):
-    h, cname, cbytes_fn, cases, idx, root = args
+    h, cname, cbytes_fn, cases, idx, root, sname = args
     w = os.path.join(root, 'w%d' % idx)
     cb = cbytes_fn(w)[cname]
-    lines = ['sinks pipe', 'cfgnone' if cb is None else 'cfg ' + H.hx(cb)]
+    lines = ['sinks pipe', 'cfgnone' if cb is None else 'cfg ' + H.hx(cb)] + STATES[sname]
     cur_env = None
     for label, prelude, cl in cases:
         if prelude and prelude != cur_env:
@@ -98,7 +109,7 @@ def run_config(args):
             cur_env = prelude
         lines.append(cl)
     r = H.run_script(h, w, '\n'.join(lines), env_extra={'VERIF_HEXMAX': '0'}, timeout=600)
-    return cname, r
+    return cname, sname, cases, r
 
 
 SINKS = ('log', 'log2', 'stdout', 'stderr', 'tty', 'sock', 'devlog')
@@ -136,13 +147,21 @@ def run(ck):
     v = H.build_exec_harness('c01-ts-asan')
     cases = cases_for(ck.tier)
     cfgnames = list(configs('/x').keys())
-    jobs = [(v['h_exec'], c, configs, cases, i, ck.workdir) for i, c in enumerate(cfgnames)]
+    # plain caller state: the full product; every other caller state: the full product in thorough, the shape product with
+    # one outcome in quick
+    reduced = [c for c in cases if (c[0][4], c[0][5]) == (-1, 2) and c[0][1] in ('abs', 'bytes255')]
+    jobs = []
+    for sname in STATES:
+        cs = cases if (sname == 'plain' or ck.tier == 'thorough') else reduced
+        for c in cfgnames:
+            jobs.append((v['h_exec'], c, configs, cs, len(jobs), ck.workdir, sname))
     results = pmap(run_config, jobs)
     evals = 0
     outcomes_seen = set()
     logged_calls = 0
     samples = []
-    for cname, r in results:
+    for cname0, sname, cases, r in results:
+        cname = cname0 if sname == 'plain' else cname0 + '@' + sname
         if not r['done'] or r['san'] or r['signal'] or r['timed_out']:
             n_ok = len([l for l in r['lines'] if 'call' in l])
             lab = cases[n_ok][0] if n_ok < len(cases) else None
@@ -165,7 +184,8 @@ def run(ck):
                        'alphabet values represent their classes; unterminated vectors / invalid pointers outside the domain']
     ck.coverage(states=len(outcomes_seen), transitions=evals, traces_validated_against_impl=evals, evaluations=evals,
               distinct_nontrivial=len(outcomes_seen),
-              rule='full product of entry x path x argv x envp/environ x outcome per configuration, plus every errno 1..133; '
+              rule='full product of entry x path x argv x envp/environ x outcome per configuration, plus every errno 1..133, in the plain caller state; '
+                   'the same (thorough) or the shape product with one outcome (quick) in every other caller state; '
                    'distinct = distinct (config, entry, ret, errno, logged?) observations',
-              calls_that_logged=logged_calls, configurations=len(cfgnames), cases_per_configuration=len(cases),
+              calls_that_logged=logged_calls, configurations=len(cfgnames), caller_states=list(STATES), processes=len(jobs),
               samples=samples or [{'note': 'no sample'}])
